@@ -20,7 +20,7 @@ from gen_prog import INT, arr_type, arr_val, ival
 from sched import Scheduler
 
 LEVEL = "proof"
-THEOREMS = ["C06_source_storage", "C06_kinds", "C06_noninterference", "C06_generated", "C06_schedule_independent", "C06_sensitive", "C06_no_other_shared_state"]
+THEOREMS = ["C06_source_cells", "C06_source_storage", "C06_kinds", "C06_noninterference", "C06_generated", "C06_schedule_independent", "C06_sensitive", "C06_no_other_shared_state"]
 RULE = (
     "2-3 real threads, each running a workload of context blocks, new- and old-style decorated calls, array "
     "checks, PyTree checks with '?' axes and structure names, custom-node flattening, failing checks that "
@@ -37,7 +37,7 @@ RULE = (
     "non-trivial = the preemption lands while the preempted thread holds a context, a '?' label or "
     "flatten mode; distinct by (workload set, schedule)"
 )
-TRUSTED = [
+TRUSTED = ["harness/translate_storage.py (recognisers of the statements of the label / flag functions of _storage.py) and the interpreter Model/CellDsl.lean", 
     "harness/translate_storage.py (recognisers of the statements of get/set/push/pop_shape_memo and their helpers) and the interpreter Model/StorageDsl.lean (one list object per thread cell; list end = head of the model's list)",
     "Lean 4 kernel",
     "CPython's threading.local, the GIL and settrace line granularity (a preemption between two bytecodes of one line is not exercised; the theorem covers it for the model)",
